@@ -1057,6 +1057,20 @@ func extractC03(c *Ctx) error {
 	if err := c03ValsetCollision(c); err != nil {
 		return err
 	}
+	extraFields, err := c03DecoratorState(c)
+	if err != nil {
+		return err
+	}
+	c.P("(** VerifyAuthorisedSignatureDecorator: fields besides the feegrant keeper (none: the decorator has no")
+	c.P("    memory between transactions; a map / pointer / sync field or a package-level map is an error). *)")
+	c.P("Definition decorator_extra_fields : list string := %s.", CoqStrList(extraFields))
+	c.P("")
+	if err := c03CreateDenomConsults(c); err != nil {
+		return err
+	}
+	c.P("(** tokenfactory validateCreateDenom decides 'the denom exists' from bank's denom metadata (shape checked). *)")
+	c.P("Definition create_denom_consults_bank_metadata : bool := true.")
+	c.P("")
 	c.P("(** valset SetExternalChainInfoState: EVERY incoming account is compared (address, key) with every")
 	c.P("    account of every other validator: the comparison sits in a loop over the incoming list nested")
 	c.P("    in the loops over the other validators' accounts; no index of the incoming accounts (shape checked). *)")
@@ -1388,6 +1402,104 @@ func c03ValsetCollision(c *Ctx) error {
 	walk(fd.Body, nil)
 	if found != 1 || len(adds) != 1 {
 		return bad("the address-or-key comparison is not (once) inside a loop over the incoming accounts nested in the loops over the other validators' accounts")
+	}
+	return nil
+}
+
+// c03DecoratorState: the decorator's struct must hold the feegrant keeper only, and x/paloma/ante.go
+// no package-level mutable container: anything a transaction could leave behind for the next one
+// (a cache) makes "a grant that exists NOW" unsound.
+func c03DecoratorState(c *Ctx) ([]string, error) {
+	f, err := c.Parse("x/paloma/ante.go")
+	if err != nil {
+		return nil, err
+	}
+	var extra []string
+	found := false
+	for _, d := range f.Decls {
+		gd, ok := d.(*ast.GenDecl)
+		if !ok {
+			continue
+		}
+		switch gd.Tok {
+		case token.TYPE:
+			for _, sp := range gd.Specs {
+				ts := sp.(*ast.TypeSpec)
+				st, ok := ts.Type.(*ast.StructType)
+				if !ok || ts.Name.Name != "VerifyAuthorisedSignatureDecorator" {
+					continue
+				}
+				found = true
+				for _, fl := range st.Fields.List {
+					typ := c.Src(fl.Type)
+					for _, n := range fl.Names {
+						if n.Name == "fk" && strings.HasSuffix(typ, "FeegrantKeeper") {
+							continue
+						}
+						if strings.Contains(typ, "map[") || strings.Contains(typ, "*") || strings.Contains(typ, "sync.") || strings.Contains(typ, "chan ") || strings.Contains(typ, "[]") || strings.Contains(strings.ToLower(typ), "cache") {
+							return nil, fmt.Errorf("x/paloma/ante.go: VerifyAuthorisedSignatureDecorator has field %s %s: the decorator keeps state between transactions (shape not understood: the model's decorator reads the grants from the store for every message)", n.Name, typ)
+						}
+						extra = append(extra, n.Name)
+					}
+				}
+			}
+		case token.VAR:
+			for _, sp := range gd.Specs {
+				vs := sp.(*ast.ValueSpec)
+				src := c.Src(vs)
+				if len(vs.Names) == 1 && vs.Names[0].Name == "_" {
+					continue
+				}
+				if strings.Contains(src, "map[") || strings.Contains(src, "sync.") || strings.Contains(src, "make(") || strings.Contains(strings.ToLower(src), "cache") {
+					return nil, fmt.Errorf("x/paloma/ante.go: package-level variable %s: state shared between transactions (shape not understood)", src)
+				}
+			}
+		}
+	}
+	if !found {
+		return nil, fmt.Errorf("x/paloma/ante.go: type VerifyAuthorisedSignatureDecorator not found")
+	}
+	return extra, nil
+}
+
+// c03CreateDenomConsults: validateCreateDenom must refuse on `_, found := k.bankKeeper.GetDenomMetaData`
+// (or HasDenomMetaData) and consult nothing of the module's own records (the authority metadata of a
+// denom whose admin role was renounced is empty: the denom would look free).
+func c03CreateDenomConsults(c *Ctx) error {
+	files, err := c.ParseDir("x/tokenfactory/keeper")
+	if err != nil {
+		return err
+	}
+	fd := FindFuncIn(files, "Keeper", "validateCreateDenom")
+	bad := func(why string) error {
+		return fmt.Errorf("x/tokenfactory/keeper validateCreateDenom: %s (shape not understood: 'the denom exists' must be decided from bank's denom metadata)", why)
+	}
+	if fd == nil || fd.Body == nil {
+		return bad("not found")
+	}
+	if len(Calls(fd.Body, "GetDenomMetaData"))+len(Calls(fd.Body, "HasDenomMetaData")) != 1 {
+		return bad("bank denom metadata is not consulted exactly once")
+	}
+	for _, n := range []string{"GetAuthorityMetadata", "GetDenomsFromCreator", "GetCreatorPrefixStore", "GetDenomPrefixStore", "Get", "Has"} {
+		if len(Calls(fd.Body, n)) > 0 {
+			return bad("consults " + n)
+		}
+	}
+	ok := false
+	for _, st := range fd.Body.List {
+		is, isIf := st.(*ast.IfStmt)
+		if !isIf || !c03ReturnsError(is.Body) {
+			continue
+		}
+		cs := c.Src(is.Cond)
+		if cs == "found" || strings.Contains(cs, "HasDenomMetaData(") {
+			if strings.Contains(c.Src(is.Body), "ErrDenomExists") {
+				ok = true
+			}
+		}
+	}
+	if !ok {
+		return bad("no `if found { return ErrDenomExists }`")
 	}
 	return nil
 }
